@@ -55,6 +55,13 @@ For hand-written rebuilds that deviate from the canonical CREATE new_t / INSERT 
 (other temporary name, no INSERT, an extra or a foreign statement inside) any single DS102/DS103 inside the group is accepted,
 which is all the property statement asks for.
 
+Verdicts never depend on the wording of a diagnostic: a DS102 / DS103 is attributed to the statement (group, END block)
+its Pos falls into; per such unit the replay says how many pre-existing tables / non-virtual columns it dropped:
+DS102 -- exactly one per dropped table (plus, optionally, one per shadow table of a dropped virtual table);
+DS103 -- at least one and at most one per dropped column (Atlas combines the columns of one statement into one
+diagnostic, one per column is as good); a DS102 on a unit that dropped no pre-existing table, or a DS103 on one that
+dropped no pre-existing non-virtual column, is spurious. Names quoted in the text appear in messages only.
+
 Violation keys are class level: missing|<code>|<how>|<file class>|<writer>, spurious|<code>|..., pos|...,
 duplicate|..., exit|.... Six keys carry a circumstance instead of the file class; they single out the two
 root causes documented in notes/C18-findings.md (finding 2: the statement in the INSERT slot of a rebuild is
@@ -241,66 +248,73 @@ def judge_file(f, rec, diags):
     relaxed = set(f.get("relaxed") or [])
     cls, writer = f["cls"], f["writer"]
     problems = []
-    covered_t = {t: 0 for t in exp_t}
-    covered_c = {tc: 0 for tc in exp_c}
+    # ---- verdicts come from (code, Pos -> statement) only; names quoted in the diagnostic text are a hint in the message
+    # table units: one per dropped pre-existing table (its DROP, or every statement of its rename..drop chain)
+    t_units = [{"t": e["t"], "e": e, "spans": t_span[e["t"]], "n": 0} for e in rec["tables"]]
+    # column units: the columns dropped by one statement / rebuild group (merged when they share a span, e.g. one END block)
+    c_units = {}
+    for t, c, cause in rec["columns"]:
+        sp = tuple(span(*cause))
+        u = c_units.setdefault(sp, {"spans": list(sp), "cols": [], "cause": cause, "n": 0})
+        u["cols"].append((t, c))
+    c_units = list(c_units.values())
+    exc_spans_t = [x for e in exc_t.values() for i in e["stmts"] for x in span(i, i)]
+    exc_spans_c = [x for cause in exc_c.values() for x in span(*cause)]
+    # statements that dropped a virtual table: DS102 for its shadow tables may be listed there as well
+    opt_spans = [sp for u in t_units for sp in u["spans"]] if rec.get("optional") else []
+    opt_left = len(rec.get("optional") or ())
+
+    def stmt_at(pos):
+        for x in stmts:
+            if isinstance(pos, int) and x.region <= pos < x.end:
+                return x
+        return None
     for d in diags:
-        code, pos, names = d.get("Code"), d.get("Pos"), L.diag_names(d.get("Text") or "")
+        code, pos, hint = d.get("Code"), d.get("Pos"), d.get("Text")
+        at = stmt_at(pos)
         if code == "DS102":
-            t = names[0] if names else None
-            if t in t_alias:
-                t = t_alias[t]
-                covered_t[t] += 1
-                if not inside(pos, t_span[t]):
-                    problems.append(("pos|DS102|%s|%s" % (cls, writer), "DS102 for table %r at Pos %r which is not inside a statement that (renames and) drops it (%r)" % (t, pos, t_span[t])))
-            elif t in rec.get("optional", ()):
-                pass  # a shadow table of a dropped virtual table: implementation detail, may or may not be listed
-            elif t in exc_alias:
-                problems.append(("nolint|DS102-reported-despite-directive", "table %r is dropped by a statement excused by an atlas:nolint directive (file rules %r) yet DS102 is reported at Pos %r" % (t, frules, pos)))
-            elif t in relaxed and inside(pos, g_span.get(t, [])):
+            us = [u for u in t_units if inside(pos, u["spans"])]
+            free = [u for u in us if u["n"] == 0]
+            if free:
+                free[0]["n"] += 1
+            elif us and opt_left > 0 and inside(pos, opt_spans):
+                opt_left -= 1  # a shadow table of the dropped virtual table
+            elif us:
+                us[0]["n"] += 1  # more DS102 than tables dropped there: reported below as duplicate
+            elif [u for u in c_units if inside(pos, u["spans"]) and any(t in relaxed for t, _ in u["cols"])]:
                 # non-canonical hand-written rebuild: a destructive diagnostic inside the group is what the statement asks for
-                mine = [tc for tc in covered_c if tc[0] == t and inside(pos, c_span[tc])]
-                for tc in mine:
-                    covered_c[tc] += 1
-                if not mine:
-                    problems.append(("spurious|DS102|%s|%s" % (cls, writer), "DS102 %r on a rebuild that loses no non-virtual column" % t))
-            elif t is not None and t.startswith("new_") and t in created and t not in before and t not in after and t not in canon_tmp:
+                [u for u in c_units if inside(pos, u["spans"]) and any(t in relaxed for t, _ in u["cols"])][0]["n"] += 1
+            elif inside(pos, exc_spans_t):
+                problems.append(("nolint|DS102-reported-despite-directive", "DS102 at Pos %r on a statement excused by an atlas:nolint directive (file rules %r): %r" % (pos, frules, hint)))
+            elif at is not None and at.kind in ("drop_table", "rename_table") and at.args[0].startswith("new_") and at.args[0] in created \
+                    and at.args[0] not in before and at.args[0] not in canon_tmp:
                 problems.append(("spurious|DS102|temporary-table-named-new_*",
-                                 "table %r is created and dropped inside %s (temporary object) yet DS102 is reported at Pos %r" % (t, f["name"], pos)))
+                                 "table %r is created and dropped inside %s (temporary object) yet DS102 is reported at Pos %r: %r" % (at.args[0], f["name"], pos, hint)))
             else:
-                problems.append(("spurious|DS102|%s|%s" % (cls, writer), "DS102 %r at Pos %r: no table of that name that existed before the file is dropped by it (before=%s after=%s)" % (t, pos, t in before, t in after)))
+                problems.append(("spurious|DS102|%s|%s" % (cls, writer), "DS102 at Pos %r (%s): that statement drops no table that existed before the file: %r" % (
+                    pos, "%s%r" % (at.kind, at.args) if at else "outside any statement", hint)))
         elif code == "DS103":
-            rb = [t for t in t_rebuilt if inside(pos, t_rebuilt[t]) and names
-                  and all(before[t].get(c, "v") != "v" and c not in after[t] for c in names)]
-            if rb:
-                covered_t[rb[0]] += 1
-                continue
-            for c in names:
-                hit = [tc for tc in covered_c if tc[1] == c and inside(pos, c_span[tc])]
-                if hit:
-                    covered_c[hit[0]] += 1
-                    continue
-                exd = [tc for tc in exc_c if tc[1] == c and inside(pos, span(*exc_c[tc]))]
-                if exd:
-                    problems.append(("nolint|DS103-reported-despite-directive", "column %s.%s is dropped by a statement excused by an atlas:nolint directive (file rules %r) yet DS103 is reported at Pos %r" % (exd[0][0], c, frules, pos)))
-                    continue
-                elsewhere = [tc for tc in covered_c if tc[1] == c]
-                if elsewhere:
-                    covered_c[elsewhere[0]] += 1
-                    problems.append(("pos|DS103|%s|%s" % (cls, writer), "DS103 for column %r at Pos %r which is not inside the statement / rebuild group dropping %s.%s (%r)" % (c, pos, elsewhere[0][0], c, c_span[elsewhere[0]])))
-                elif [x for x in stmts if x.region <= pos < x.end and x.kind == "drop_column" and x.args[0].startswith("new_")
-                      and x.args[0] in created and x.args[0] not in before and x.args[0] not in canon_tmp]:
-                    problems.append(("spurious|DS103|column-of-table-named-new_*-created-in-file",
-                                     "column %r belongs to a table created inside %s (nothing that existed before is lost) yet DS103 is reported at Pos %r" % (c, f["name"], pos)))
-                else:
-                    vv = [tc for tc in virt if tc[1] == c]
-                    problems.append(("spurious|DS103|%s|%s|%s" % ("virtual" if vv else "not-dropped", cls, writer), "DS103 names column %r at Pos %r: %s" % (c, pos, "it is VIRTUAL" if vv else "no such non-virtual pre-existing column was dropped by this file")))
-            if not names:
-                problems.append(("spurious|DS103|unnamed|%s|%s" % (cls, writer), "DS103 without a column name: %r" % d.get("Text")))
+            us = [u for u in c_units if inside(pos, u["spans"])]
+            rb = [u for u in t_units if u["e"]["t"] in t_rebuilt and inside(pos, t_rebuilt[u["e"]["t"]])]
+            if us:
+                us[0]["n"] += 1
+            elif rb:
+                rb[0]["n"] += 1
+            elif inside(pos, exc_spans_c):
+                problems.append(("nolint|DS103-reported-despite-directive", "DS103 at Pos %r on a statement excused by an atlas:nolint directive (file rules %r): %r" % (pos, frules, hint)))
+            elif at is not None and at.kind == "drop_column" and at.args[0].startswith("new_") and at.args[0] in created \
+                    and at.args[0] not in before and at.args[0] not in canon_tmp:
+                problems.append(("spurious|DS103|column-of-table-named-new_*-created-in-file",
+                                 "the statement at Pos %r drops a column of a table created inside %s (nothing that existed before is lost) yet DS103 is reported: %r" % (pos, f["name"], hint)))
+            else:
+                vv = [tc for tc in virt]
+                problems.append(("spurious|DS103|%s|%s|%s" % ("not-dropped", cls, writer), "DS103 at Pos %r (%s): that statement drops no non-virtual column that existed before the file%s: %r" % (
+                    pos, "%s%r" % (at.kind, at.args) if at else "outside any statement", " (the file drops VIRTUAL column(s) %r)" % vv if vv else "", hint)))
         else:
             problems.append(("spurious|%s|%s|%s" % (code, cls, writer), "unexpected destructive diagnostic %r" % d))
-    for e in rec["tables"]:
-        t, i = e["t"], e["stmts"][-1]
-        n = covered_t[t]
+    for u in t_units:
+        e = u["e"]
+        t, i, n = e["t"], e["stmts"][-1], u["n"]
         if n == 0:
             if i in slot:
                 problems.append(("missing|DS102|statement-between-CREATE-new_<t>-and-DROP-<t>-of-a-rebuild",
@@ -309,25 +323,27 @@ def judge_file(f, rec, diags):
                 problems.append(("missing|DS102|file-creates-new_<t>-and-drops-<t>",
                                  "table %r existed before %s and is dropped by it, no DS102; the same file creates table %r" % (t, f["name"], "new_" + t)))
             else:
-                problems.append(("missing|DS102|%s|%s" % (cls, writer), "table %r existed before %s and is dropped by it (statements %s%s), no DS102 diagnostic" % (
+                problems.append(("missing|DS102|%s|%s" % (cls, writer), "table %r existed before %s and is dropped by it (statements %s%s), no DS102 diagnostic on those statements" % (
                     t, f["name"], [x + 1 for x in e["stmts"]], ", renamed to %s on the way" % e["names"][1:] if len(e["names"]) > 1 else "")))
         elif n > 1:
-            problems.append(("duplicate|DS102|%s|%s" % (cls, writer), "%d DS102 diagnostics for table %r" % (n, t)))
-    for (t, c), n in covered_c.items():
-        if n == 0:
-            a, b = c_cause[(t, c)]
-            how = "alter" if a == b else "rebuild"
-            sib = [s for s in stmts if s.kind == "create_table" and s.args[0] == "new_" + t and "new_" + t not in canon_tmp and ("`%s`" % c) in s.text]
+            problems.append(("duplicate|DS102|%s|%s" % (cls, writer), "%d DS102 diagnostics on the statement(s) that drop table %r" % (n, t)))
+    for u in c_units:
+        a, b = u["cause"]
+        how = "alter" if a == b else "rebuild"
+        if u["n"] == 0:
+            t, c = u["cols"][0]
+            sib = [x for x in stmts if x.kind == "create_table" and x.args[0] == "new_" + t and "new_" + t not in canon_tmp and ("`%s`" % c) in x.text]
             if a == b and a in slot:
                 problems.append(("missing|DS103|statement-between-CREATE-new_<t>-and-DROP-<t>-of-a-rebuild",
-                                 "non-virtual column %s.%s existed before %s and is dropped by statement %d, which sits between the CREATE and the DROP of a table rebuild; no DS103" % (t, c, f["name"], a + 1)))
+                                 "non-virtual column(s) %r existed before %s and are dropped by statement %d, which sits between the CREATE and the DROP of a table rebuild; no DS103" % (u["cols"], f["name"], a + 1)))
             elif sib:
                 problems.append(("missing|DS103|file-creates-new_<t>-with-column-<c>-and-drops-<t>.<c>",
                                  "non-virtual column %s.%s existed before %s and is dropped by it (%s), no DS103; the same file creates table %r with a column %r" % (t, c, f["name"], how, "new_" + t, c)))
             else:
-                problems.append(("missing|DS103|%s|%s|%s" % (how, cls, writer), "non-virtual column %s.%s existed before %s and is dropped by it (%s, statements %d-%d), no DS103 diagnostic" % (t, c, f["name"], how, a + 1, b + 1)))
-        elif n > 1:
-            problems.append(("duplicate|DS103|%s|%s" % (cls, writer), "%d diagnostics for column %s.%s" % (n, t, c)))
+                problems.append(("missing|DS103|%s|%s|%s" % (how, cls, writer), "non-virtual column(s) %r existed before %s and are dropped by it (%s, statements %d-%d), no DS103 diagnostic on those statements" % (
+                    u["cols"], f["name"], how, a + 1, b + 1)))
+        elif u["n"] > len(u["cols"]):
+            problems.append(("duplicate|DS103|%s|%s" % (cls, writer), "%d DS103 diagnostics on statements %d-%d, which drop %d column(s) %r" % (u["n"], a + 1, b + 1, len(u["cols"]), u["cols"])))
     readded = sorted(tc for tc in exp_c if tc[0] in after and tc[1] in after[tc[0]])
     recreated = sorted(t for t in exp_t if t in after)
     renamed = sorted(e["t"] for e in rec["tables"] if len(e["names"]) > 1)
@@ -336,7 +352,7 @@ def judge_file(f, rec, diags):
                 "bom": text.startswith("\ufeff"), "tx_blocks": len(blocks),
                 "nolint": [sorted(map(tuple, frules)), len(exc_t) + len(exc_c), len(all_t) + len(all_c)],
                 "after_rename": sorted({stmts[g[4] + 1].kind for g in groups if g[5] and g[4] + 1 < len(stmts)}),
-                "diags": sorted((d.get("Code"), len(L.diag_names(d.get("Text") or ""))) for d in diags),
+                "diags": sorted(str(d.get("Code")) for d in diags),
                 "groups": sorted((g[5],) for g in groups), "nstmts": min(len(stmts), 11)}
     nol = None
     if frules or any(L.stmt_nolint(text, x) for x in stmts):
